@@ -333,7 +333,7 @@ class MockTwoDResponseCalculator(TwoDResponseCalculator):
         else:
             dephx = pathway.dephs[1]
             
-        if pathway.widths[3] < 0.0:
+        if pathway.dephs[3] < 0.0:
             dephy = self.dephy
         else:
             dephy = pathway.dephs[3]
